@@ -434,6 +434,32 @@ def eval_real(blocks):
 # ----------------------------------------------------------------------------------------------
 # known findings
 # ----------------------------------------------------------------------------------------------
+def judge_childq(r):
+    """a `childq` answer: (tag, sequence the object holds, query, answer) - compared with the model's answer for that sequence"""
+    _, childseq, q, ans = r
+    parts = q.split(" ")
+    line = "q %s %s%s" % (parts[0], childseq, "".join(" " + a for a in parts[1:]))
+    spec = run_driver([line], "spec")[0]
+    ok, why = match(ans, spec)
+    return ok, "object handed back by the library holds %s; %s on it -> %s but that sequence's value is %s" % (childseq, q, str(ans)[:100], spec[:100])
+
+
+def childq_cases(rng, n, queries, maxlen=40):
+    """lines putting `queries` to objects returned by swapRes (both index orders), swapRandChargeRes, shuffles and get_permutant"""
+    from . import gen
+    out = []
+    for _ in range(n):
+        s = gen.rand_seq(rng, rng.choice(["polyampholyte", "idp", "blocky"]), rng.randint(6, maxlen))
+        how = rng.choice(["swap", "swap", "swapcharge", "shuffle", "backendshuffle", "permutant"])
+        q = rng.choice(queries)
+        if how == "swap":
+            i, j = rng.randrange(len(s)), rng.randrange(len(s))
+            out.append("childq swap %s %d %d %s" % (s, i, j, q))
+        else:
+            out.append("childq %s %s %s" % (how, s, q))
+    return out
+
+
 def load_known():
     p = os.path.join(VERIF, "known_findings.json")
     try:
